@@ -187,7 +187,7 @@ def run_impl(cases):
     return res
 
 
-EMPTY = '(mkcase (mkcfg true false false false false []) [] [] true 0 false)'
+EMPTY = '(mkcase (mkcfg true false false false false []) [] [] true 0 false None)'
 
 
 def encode(case, obs):
